@@ -35,6 +35,16 @@ def cases(tier, rng):
             p["macros"].append(("msb", ["x", "c"], ("seq", [("sub", "c", [("gate", "X", [("id", "x")])]), ("gate", "H", [("id", "x")])])))
             p["macros"].append(("mso", ["y"], ("seq", [("gate", "msb", [("id", "y"), ("num", rng.choice([0, 2, 3]))]), ("gate", "X", [("id", "y")])])))
             p["body"].append(("gate", "mso", [("q", "q", 0)]))
+        if i % 5 == 2:
+            # macros with an empty body, and blocks that are empty once those calls are expanded: a subcircuit block (with
+            # its count), a loop and a parallel block must survive expansion even when nothing is left inside
+            p["macros"].append(("mnil", [], ("seq", [])))
+            p["macros"].append(("mnil2", ["x"], ("seq", [("gate", "mnil", [])])))
+            extra = [("sub", rng.choice([None, 0, 3]), [("gate", "mnil", [])] * rng.choice([0, 1, 2])),
+                     ("sub", rng.choice([2, 5]), [("gate", "mnil2", [("q", "q", 0)])]),
+                     ("loop", rng.choice([0, 2]), [("gate", "mnil", [])])]
+            rng.shuffle(extra)
+            p["body"] = p["body"] + extra[:rng.choice([1, 2, 3])]
         text = ref.to_text(p)
         yield text, {"prog": p, "text": text}, has_macro_call(p)
 
